@@ -87,7 +87,8 @@ def build_feed(rng, n_lines, malformed, limit_parsing=False):
             lines.append(("other", enc.line(bytes(m)), None, None))
         else:
             m = bytearray(rng.getrandbits(8) for _ in range(14))
-            enc.setbits(m, 1, 5, rng.choice([16, 20, 21, 24]))
+            # incl. the military format (decodes, renders nothing) and the Comm-D range
+            enc.setbits(m, 1, 5, rng.choice([16, 20, 21, 24, 19, 19, 27, 31]))
             lines.append(("other", enc.line(bytes(m)), None, None))
         if bad and rng.random() < 0.25:
             lines.append(("bad", bad[n_bad % len(bad)] if len(bad) > 4 else rng.choice(bad), None, None))
